@@ -101,4 +101,3 @@ func (w *Watchdog) Guard(i int, what func() *Violation, f func()) (panicked stri
 	f()
 	return ""
 }
-
